@@ -454,9 +454,8 @@ func isZero(v reflect.Value, depth int) Tri {
 		if v.IsNil() {
 			return Yes
 		}
-		if v.Len() == 0 {
-			return Unspecified
-		}
+		// the zero value of a slice or map type is nil (Go specification, "The zero value"); an
+		// allocated collection, empty or not, is a value
 		return No
 	case reflect.Func, reflect.Chan, reflect.UnsafePointer:
 		return tri(v.IsNil())
